@@ -380,6 +380,43 @@ func init() {
 			})
 		}
 		fmt.Fprintf(&sb, "/-- per plan target in addRequests -/\ndef addRequestsIncs : List String := %s\n", LeanStrList(arIncs))
+		// round 12: the shape of addRequests statement by statement: which statements run once per
+		// call (= per physical plan) and which once per target; perTarget = both counters are
+		// incremented inside `for … range physicalPlan.Targets` and touched nowhere else.
+		var arSteps []string
+		perTarget := false
+		if ar != nil {
+			incIn, other := 0, 0
+			touches := func(n ast.Node) bool {
+				t := c12Src(fsetTC, n)
+				return strings.Contains(t, "expectResults") || strings.Contains(t, "tolerantNotFounds")
+			}
+			for _, st := range ar.Body.List {
+				if rs, ok := st.(*ast.RangeStmt); ok {
+					overTargets := c12Src(fsetTC, rs.X) == "physicalPlan.Targets"
+					arSteps = append(arSteps, "for range "+c12Src(fsetTC, rs.X))
+					for _, b := range rs.Body.List {
+						if es, ok := b.(*ast.ExprStmt); ok && strings.HasPrefix(c12Src(fsetTC, es), "verifhook.Yield") {
+							continue
+						}
+						arSteps = append(arSteps, "  "+c12Src(fsetTC, b))
+						if _, ok := b.(*ast.IncDecStmt); ok && overTargets && touches(b) {
+							incIn++
+						} else if touches(b) {
+							other++
+						}
+					}
+					continue
+				}
+				arSteps = append(arSteps, c12Src(fsetTC, st))
+				if touches(st) {
+					other++
+				}
+			}
+			perTarget = incIn == 2 && other == 0 && len(arIncs) == 2
+		}
+		fmt.Fprintf(&sb, "/-- addRequests statement by statement (two spaces = inside the loop) -/\ndef addRequestsSteps : List String := %s\n", LeanStrList(arSteps))
+		fmt.Fprintf(&sb, "/-- expectResults and tolerantNotFounds are incremented once per target of the plan, and only there -/\ndef addRequestsPerTarget : Bool := %v\n", perTarget)
 
 		// ---------------- aggregation/group_agg.go, field_agg.go
 		fsetGA, ga, err := ParseFile(repo, "aggregation/group_agg.go")
@@ -639,6 +676,9 @@ func init() {
 			return "", err
 		}
 		if err := c12FilterFacts(repo, &sb); err != nil {
+			return "", err
+		}
+		if err := c12GlueFacts(repo, &sb); err != nil {
 			return "", err
 		}
 		return sb.String(), nil
